@@ -2,4 +2,398 @@
 
 package minisql
 
-func (w *printer) plNode(n *Node) bool { return false }
+import (
+	"fmt"
+	"strings"
+)
+
+// PL/pgSQL bodies of the tracked functions (triggers, compute_hash,
+// create_block[s]) → MiniPL AST (Lean type `PlStmt`, see lean/Ledger/Sql/Ast.lean).
+
+// PlFunc is a parsed function or procedure.
+type PlFunc struct {
+	Name    string
+	Params  []PlParam
+	Returns *Node // SqlType.mk …
+	Decls   []PlDecl
+	Body    []*Node
+	// Source is the normalised body text (for pinning natively modelled functions).
+	Source string
+}
+
+type PlParam struct {
+	Name string
+	Type *Node
+}
+
+type PlDecl struct {
+	Name string
+	Type *Node
+	Init *Node
+}
+
+// ParsePlBody parses `[declare …] begin … end` into declarations and statements.
+func ParsePlBody(body string) (decls []PlDecl, stmts []*Node, err error) {
+	defer func() {
+		if r := recover(); r != nil {
+			if pe, ok := r.(*ParseError); ok {
+				err = pe
+				return
+			}
+			panic(r)
+		}
+	}()
+	toks, lerr := Lex(body)
+	if lerr != nil {
+		return nil, nil, &ParseError{Msg: lerr.Error(), Pos: -1, SQL: body}
+	}
+	p := &parser{src: body, toks: toks, pl: true}
+	if p.acceptKw("declare") {
+		for !p.isKw("begin") {
+			name := p.ident("variable name")
+			if p.isKw("constant") {
+				p.next()
+			}
+			ty := p.parseType()
+			var init *Node
+			if p.acceptOp(":=") || p.acceptOp("=") || p.acceptKw("default") {
+				init = p.parseExpr()
+			}
+			p.expectOp(";")
+			decls = append(decls, PlDecl{Name: name, Type: ty, Init: init})
+		}
+	}
+	p.expectKw("begin")
+	stmts = p.parsePlStmts("end")
+	p.expectKw("end")
+	p.acceptOp(";")
+	if p.peek().Kind != TEOF {
+		p.fail("unexpected %s after the end of the function body", p.peek())
+	}
+	return decls, stmts, nil
+}
+
+// parsePlStmts parses statements until one of the stop keywords is next.
+func (p *parser) parsePlStmts(stops ...string) []*Node {
+	var out []*Node
+	for {
+		for _, s := range stops {
+			if p.isKw(s) {
+				return out
+			}
+		}
+		if p.peek().Kind == TEOF {
+			p.fail("unexpected end of PL/pgSQL body")
+		}
+		out = append(out, p.parsePlStmt())
+	}
+}
+
+// stmtTokens returns the tokens of the current statement up to (not including)
+// the terminating top-level ';' and advances past it.
+func (p *parser) stmtTokens() []Token {
+	depth := 0
+	start := p.i
+	for {
+		t := p.peek()
+		if t.Kind == TEOF {
+			p.fail("unterminated PL/pgSQL statement")
+		}
+		if t.Kind == TOp {
+			switch t.Text {
+			case "(", "[":
+				depth++
+			case ")", "]":
+				depth--
+			case ";":
+				if depth == 0 {
+					toks := append([]Token{}, p.toks[start:p.i]...)
+					p.next()
+					return toks
+				}
+			}
+		}
+		p.next()
+	}
+}
+
+// extractInto removes a top-level `INTO target[, target…]` from a statement's
+// tokens. For DML it must follow RETURNING.
+func (p *parser) extractInto(toks []Token, needReturning bool) ([]Token, []*Node) {
+	depth := 0
+	seenReturning := false
+	for i, t := range toks {
+		if t.Kind == TOp {
+			switch t.Text {
+			case "(", "[":
+				depth++
+			case ")", "]":
+				depth--
+			}
+			continue
+		}
+		if depth != 0 || t.Kind != TIdent {
+			continue
+		}
+		if t.Text == "returning" {
+			seenReturning = true
+		}
+		if t.Text == "into" && (!needReturning || seenReturning) {
+			// INSERT INTO at the start is not an INTO clause
+			if i > 0 && toks[i-1].Kind == TIdent && toks[i-1].Text == "insert" {
+				continue
+			}
+			j := i + 1
+			var targets []*Node
+			for {
+				if j >= len(toks) || (toks[j].Kind != TIdent && toks[j].Kind != TQIdent) {
+					panic(&ParseError{Msg: "expected a variable after INTO", Pos: t.Pos, SQL: p.src})
+				}
+				if toks[j].Kind == TIdent && toks[j].Text == "strict" {
+					panic(&ParseError{Msg: "unsupported construct: INTO STRICT", Pos: t.Pos, SQL: p.src})
+				}
+				name := toks[j].Text
+				j++
+				if j+1 < len(toks) && toks[j].Kind == TOp && toks[j].Text == "." {
+					targets = append(targets, N("PlTarget.field", name, toks[j+1].Text))
+					j += 2
+				} else {
+					targets = append(targets, N("PlTarget.var", name))
+				}
+				if j < len(toks) && toks[j].Kind == TOp && toks[j].Text == "," {
+					j++
+					continue
+				}
+				break
+			}
+			rest := append(append([]Token{}, toks[:i]...), toks[j:]...)
+			return rest, targets
+		}
+	}
+	return toks, nil
+}
+
+func (p *parser) sub(toks []Token) *parser {
+	end := Token{Kind: TEOF, Pos: len(p.src)}
+	if len(toks) > 0 {
+		end.Pos = toks[len(toks)-1].Pos + 1
+	}
+	return &parser{src: p.src, toks: append(append([]Token{}, toks...), end), pl: true, winID: p.winID}
+}
+
+func (p *parser) parsePlStmt() *Node {
+	t := p.peek()
+	if t.Kind == TOp && t.Text == "<<" {
+		p.fail("unsupported construct: block label")
+	}
+	if t.Kind != TIdent && t.Kind != TQIdent {
+		p.fail("unexpected %s at the start of a PL/pgSQL statement", t)
+	}
+	// assignment: target := expr | target = expr
+	if !(t.Kind == TIdent && plKeywords[t.Text]) {
+		k := 1
+		if p.isOpAt(1, ".") && (p.peekAt(2).Kind == TIdent || p.peekAt(2).Kind == TQIdent) {
+			k = 3
+		}
+		if p.isOpAt(k, ":=") || p.isOpAt(k, "=") {
+			var target *Node
+			if k == 1 {
+				target = N("PlTarget.var", p.next().Text)
+			} else {
+				v := p.next().Text
+				p.next()
+				target = N("PlTarget.field", v, p.next().Text)
+			}
+			p.next()
+			e := p.parseExpr()
+			p.expectOp(";")
+			return N("PlStmt.assign", target, e)
+		}
+	}
+	if t.Kind != TIdent {
+		p.fail("unexpected %s at the start of a PL/pgSQL statement", t)
+	}
+	switch t.Text {
+	case "null":
+		p.next()
+		p.expectOp(";")
+		return N("PlStmt.null")
+	case "if":
+		return p.parsePlIf()
+	case "loop":
+		p.next()
+		body := p.parsePlStmts("end")
+		p.expectKw("end")
+		p.expectKw("loop")
+		p.expectOp(";")
+		return N("PlStmt.loop", body)
+	case "for", "while", "foreach":
+		p.fail("unsupported construct: PL/pgSQL %s loop", strings.ToUpper(t.Text))
+	case "exit":
+		p.next()
+		var when *Node
+		if p.acceptKw("when") {
+			when = p.parseExpr()
+		} else if p.isIdent() {
+			p.fail("unsupported construct: EXIT label")
+		}
+		p.expectOp(";")
+		return N("PlStmt.exit", Opt{when})
+	case "return":
+		p.next()
+		if p.isKw("next") || p.isKw("query") {
+			p.fail("unsupported construct: RETURN %s", strings.ToUpper(p.peek().Text))
+		}
+		var e *Node
+		if !p.isOp(";") {
+			e = p.parseExpr()
+		}
+		p.expectOp(";")
+		return N("PlStmt.ret", Opt{e})
+	case "raise":
+		p.next()
+		level := "exception"
+		switch {
+		case p.isKw("exception"), p.isKw("notice"), p.isKw("info"), p.isKw("warning"), p.isKw("log"), p.isKw("debug"):
+			level = p.next().Text
+		}
+		msg := ""
+		if p.peek().Kind == TString {
+			msg = p.next().Text
+		}
+		// format arguments are evaluated by PostgreSQL but only matter for the text
+		for !p.isOp(";") {
+			if p.peek().Kind == TEOF {
+				p.fail("unterminated RAISE")
+			}
+			p.next()
+		}
+		p.expectOp(";")
+		return N("PlStmt.raise", level, msg)
+	case "perform":
+		toks := p.stmtTokens()
+		toks[0] = Token{Kind: TIdent, Text: "select", Pos: toks[0].Pos}
+		sp := p.sub(toks)
+		q := sp.parseQuery()
+		if sp.peek().Kind != TEOF {
+			sp.fail("unexpected %s in PERFORM", sp.peek())
+		}
+		p.winID = sp.winID
+		return N("PlStmt.perform", q)
+	case "select", "with", "values":
+		toks := p.stmtTokens()
+		rest, targets := p.extractInto(toks, false)
+		sp := p.sub(rest)
+		st := sp.parseWithStatement()
+		if sp.peek().Kind != TEOF {
+			sp.fail("unexpected %s after the end of the statement", sp.peek())
+		}
+		p.winID = sp.winID
+		if st.Is("Stmt.query") {
+			if targets == nil {
+				p.fail("unsupported construct: SELECT without INTO in PL/pgSQL (use PERFORM)")
+			}
+			return N("PlStmt.selectInto", st.Args[0].(*Node), targets)
+		}
+		return N("PlStmt.exec", st, targets)
+	case "insert", "update", "delete":
+		toks := p.stmtTokens()
+		rest, targets := p.extractInto(toks, true)
+		sp := p.sub(rest)
+		st := sp.parseStatement()
+		if sp.peek().Kind != TEOF {
+			sp.fail("unexpected %s after the end of the statement", sp.peek())
+		}
+		p.winID = sp.winID
+		return N("PlStmt.exec", st, targets)
+	case "begin", "declare":
+		p.fail("unsupported construct: nested PL/pgSQL block")
+	case "execute":
+		p.fail("unsupported construct: dynamic EXECUTE")
+	case "call":
+		toks := p.stmtTokens()
+		sp := p.sub(toks)
+		st := sp.parseStatement()
+		return N("PlStmt.exec", st, []*Node(nil))
+	}
+	p.fail("unsupported PL/pgSQL statement starting with %s", strings.ToUpper(t.Text))
+	return nil
+}
+
+var plKeywords = map[string]bool{
+	"if": true, "loop": true, "for": true, "while": true, "foreach": true, "exit": true, "return": true, "raise": true,
+	"perform": true, "select": true, "with": true, "insert": true, "update": true, "delete": true, "begin": true,
+	"declare": true, "execute": true, "call": true, "null": true, "values": true, "end": true, "else": true, "elsif": true,
+	"continue": true, "case": true, "get": true, "open": true, "fetch": true, "close": true, "commit": true, "rollback": true,
+}
+
+func (p *parser) parsePlIf() *Node {
+	p.expectKw("if")
+	cond := p.parseExpr()
+	p.expectKw("then")
+	thn := p.parsePlStmts("elsif", "elseif", "else", "end")
+	var els []*Node
+	switch {
+	case p.isKw("elsif") || p.isKw("elseif"):
+		// rewrite `elsif` as a nested IF that consumes the shared END IF
+		p.toks[p.i] = Token{Kind: TIdent, Text: "if", Pos: p.peek().Pos}
+		els = []*Node{p.parsePlIf()}
+		return N("PlStmt.ite", cond, thn, els)
+	case p.acceptKw("else"):
+		els = p.parsePlStmts("end")
+	}
+	p.expectKw("end")
+	p.expectKw("if")
+	p.expectOp(";")
+	return N("PlStmt.ite", cond, thn, els)
+}
+
+// plNode prints PL nodes (only needed so that the generic printer is total).
+func (w *printer) plNode(n *Node) bool {
+	switch n.Tag {
+	case "PlTarget.var":
+		w.ws(quoteIdent(n.Args[0].(string)))
+	case "PlTarget.field":
+		w.ws(quoteIdent(n.Args[0].(string)) + "." + quoteIdent(n.Args[1].(string)))
+	default:
+		return false
+	}
+	return true
+}
+
+// LeanPlFunc renders a function as a Lean `PlFunc` structure instance.
+func LeanPlFunc(f *PlFunc) string {
+	var sb strings.Builder
+	sb.WriteString("{ name := " + LeanString(f.Name) + "\n")
+	sb.WriteString("    params := [")
+	for i, prm := range f.Params {
+		if i > 0 {
+			sb.WriteString(", ")
+		}
+		fmt.Fprintf(&sb, "{ name := %s, ty := %s }", LeanString(prm.Name), prm.Type.Lean())
+	}
+	sb.WriteString("]\n")
+	sb.WriteString("    returns := " + f.Returns.Lean() + "\n")
+	sb.WriteString("    decls := [")
+	for i, d := range f.Decls {
+		if i > 0 {
+			sb.WriteString(", ")
+		}
+		init := "none"
+		if d.Init != nil {
+			init = "(some " + d.Init.Lean() + ")"
+		}
+		fmt.Fprintf(&sb, "{ name := %s, ty := %s, init := %s }", LeanString(d.Name), d.Type.Lean(), init)
+	}
+	sb.WriteString("]\n")
+	sb.WriteString("    body := [\n")
+	for i, s := range f.Body {
+		sb.WriteString("      " + s.Lean())
+		if i < len(f.Body)-1 {
+			sb.WriteString(",")
+		}
+		sb.WriteString("\n")
+	}
+	sb.WriteString("    ] }")
+	return sb.String()
+}
